@@ -28,6 +28,8 @@ line whose replay reproduced in a fresh OS process; the violation class is given
 | cabce8b (overlapping inventory checks) | C12 | C12/granted-but-not-placeable |
 | 4237ef2, 12413ef, 723f247 (gateway) | C09 | C09/foreign-issuer-cert-accepted, C09/forged-cert-accepted, C09/revoked-cert-accepted-on-resumed-session |
 | a8681cd (teardown during hostname reservation) | C14 (Layer 2 runs) | C14/no-teardown-after-close |
+| 4a2081b (stop request swallowed in the hostname check) | C20 (Layer 2 runs, thorough tier) | C20/announced-without-lease |
+| 78487b9 (step in progress goes on after the stop request was taken) | C20 (Layer 1 runs with a slow hostname service; quick tier, seeds 1-5) | C20/announced-without-lease |
 
 ## 2. Own mutations (applied through a build overlay, never to /repo)
 
@@ -138,8 +140,9 @@ STRENGTHENED = """
 | C14-i (teardown overtakes the deploy at shutdown) | shutdown only happened at the end of a history | a quarter of the Layer-1 histories contain a provider shutdown; afterwards only the safety clauses are judged |
 | C16-i (feed drops repeated events) | caught by the C15 feed scenario once results may repeat an identical event | - |
 | C10-i (version update given up after 1 s) | the hostname service of the manifest scenario answered at once, so a validation never took time | in 30 % of the Layer-1 runs the hostname service answers only when the schedule says so; version updates, closes and clock steps fall into the wait (this also uncovered S16) |
-| C14-j (service subscribes after the start-up queries) | every history began with an empty cluster | a quarter of the Layer-1 histories start the cluster service over workloads that are already running: the cluster's and the node's answers take time, and leases close or updates arrive meanwhile |
-| not reached: C07-i (data race with a concurrent Simulate goroutine: real threads inside the application are outside the simulator), C07-j (sync.Pool contents depend on the collector; a child process that collects before every transaction is in place but the history is rare), C16-j (needs a failing bank refund, which no chain history produces) | | |
+| C14-j (service subscribes after the start-up queries) | every history began with an empty cluster | a quarter of the histories of both layers start the cluster service over workloads that are already running: the cluster's and the node's answers are parked calls; in Layer 2 leases close and updates arrive while the service is still waiting for them (in Layer 1 such an event races with the new managers' first `select` and broke the determinism self-test) |
+| C07-j (pooled auditor index handed back dirty) | as a determinism fault it depends on when the collector empties the pool; as an admission fault it needs all-of requirements over several auditors and partly attested providers, which were rare | C08 worlds have 1-3 auditors and sign requirements twice as often: caught by C08 as inadmissible-bid-accepted within the first hundred runs (C07 itself reaches it only rarely) |
+| not reached: C07-i (data race with a concurrent Simulate goroutine: real threads inside the application are outside the simulator), C16-j (needs a failing bank refund, which no chain history produces) | | |
 | C20-a (wait on Done()) / C10-b (updates dropped during fetch) | deployment-closed rarely hit an in-flight fetch; fetch answers were always computed at completion time; no submission of the previous version | close is 4x more likely while a fetch is in flight; 40 % of fetch answers reflect the state at issue time; new submission kind "previous-version" |
 """
 
